@@ -316,11 +316,14 @@ impl HandshakeState {
         if byte_index + payload.len() + TAGLEN > message.len() {
             return Err(Error::Input);
         }
-        byte_index +=
-            self.symmetricstate.encrypt_and_mix_hash(payload, &mut message[byte_index..])?;
-        if byte_index > MAXMSGLEN {
+        // Enforce the message size limit before the payload is encrypted, so that a rejected
+        // oversize payload never consumes a nonce.
+        let tag_len = if self.symmetricstate.has_key() { TAGLEN } else { 0 };
+        if byte_index + payload.len() + tag_len > MAXMSGLEN {
             return Err(Error::Input);
         }
+        byte_index +=
+            self.symmetricstate.encrypt_and_mix_hash(payload, &mut message[byte_index..])?;
         if self.pattern_position == (self.message_patterns.len() - 1) {
             self.symmetricstate.split(&mut self.cipherstates.0, &mut self.cipherstates.1);
         }
